@@ -235,6 +235,19 @@ pub mod fwd_attrs {
         fn force(&self, _ctx: SudoCtx) -> StdResult<Response> {
             Ok(Response::new())
         }
+        /// forwarded attribute written ABOVE the sv::msg attribute
+        #[sv::attr(doc = "v-before-msg")]
+        #[sv::msg(exec)]
+        fn attr_first(&self, _ctx: ExecCtx) -> StdResult<Response> {
+            Ok(Response::new())
+        }
+        /// forwarded attributes on both sides of sv::msg
+        #[sv::attr(doc = "v-around-1")]
+        #[sv::msg(sudo)]
+        #[sv::attr(doc = "v-around-2")]
+        fn attr_around(&self, _ctx: SudoCtx) -> StdResult<Response> {
+            Ok(Response::new())
+        }
     }
 }
 
@@ -257,5 +270,8 @@ pub mod fwd_attrs_iface {
         #[sv::msg(sudo)]
         #[sv::attr(doc = "iv-sudo")]
         fn s(&self, ctx: SudoCtx) -> Result<Response, Self::Error>;
+        #[sv::attr(doc = "iv-before-msg")]
+        #[sv::msg(exec)]
+        fn attr_first(&self, ctx: ExecCtx) -> Result<Response, Self::Error>;
     }
 }
